@@ -1,7 +1,8 @@
 """C12 — validate_calcs reports exactly the stored results that disagree:
 .xlsx files with consistent stored results, each formula cell's stored result
 perturbed in turn, against the property's statement (and the loop model of
-coq/Model/Validate.v)."""
+coq/Model/Validate.v); plus workbooks whose formula cells the checked outputs
+reach only through whole-column / whole-row references (oracle only)."""
 import contextlib
 import io
 import os
